@@ -144,7 +144,7 @@ func readalign(file string) (alchan *align.AlignChannel, err error) {
 		return
 	}
 	if rootAutoDetectInputFormat {
-		if alchan, format, err = utils.ParseMultiAlignmentsAuto(fi, r, rootinputstrict, alphabet); err != nil {
+		if alchan, format, err = utils.ParseMultiAlignmentsAutoIgnore(fi, r, rootinputstrict, alphabet, ignoreidentical); err != nil {
 			return
 		}
 		if format == align.FORMAT_PHYLIP {
